@@ -1,7 +1,7 @@
 #!/usr/bin/env python3
 """usage: r4_batch.py C07:1 C07:2 C07:harmless ...  (3 slots in parallel; results in /tmp/r4/results/<job>.txt)"""
 import subprocess, sys, os, queue, threading
-os.makedirs('/tmp/r4/results', exist_ok=True)
+os.makedirs(os.environ.get('RDIR','/tmp/r4')+'/results', exist_ok=True)
 jobs = queue.Queue()
 for a in sys.argv[1:]:
     jobs.put(a)
@@ -19,7 +19,7 @@ def worker(slot):
         lk = locks.setdefault(prop, threading.Lock())
         with lk:
             p = subprocess.run([os.environ.get('VROOT','/verif')+'/lib/try4.sh', prop, k, slot] + ([prop] + extra if extra else []), capture_output=True, text=True)
-        open('/tmp/r4/results/%s_%s.txt' % (prop, k), 'w').write(p.stdout + p.stderr)
+        open(os.environ.get('RDIR','/tmp/r4')+'/results/%s_%s.txt' % (prop, k), 'w').write(p.stdout + p.stderr)
         print('==', j); print(p.stdout.strip()); sys.stdout.flush()
 ts = [threading.Thread(target=worker, args=(s,)) for s in 'abc']
 [t.start() for t in ts]; [t.join() for t in ts]
